@@ -88,6 +88,13 @@ CHECKS = {
             "an unknown escape or a malformed/non-u8 char literal is expected to be rejected; unannotated literals may be rejected by defaulting but never change value",
             "runtime monitoring: per-literal accept/reject observation + value oracle on the executed program",
             "cli", "4/C09"),
+    "C11": ("exploration",
+            "switches over generated enums / optionals / error unions (plain and distinct) with arbitrary arm subsets, duplicates, foreign and unknown variants "
+            "and optional default arms are compiled with one switch per source line, so each accept/reject decision is observed individually; every accepted "
+            "switch is executed once per runtime variant and must run exactly that variant's arm with its payload bound (default arm: the whole value).",
+            "acceptance model written from the statement; dispatch observed through event ids printed by the arms",
+            "runtime monitoring: per-switch accept/reject observation + per-variant execution with arm-id/payload oracle",
+            "cli", "4/C11"),
 }
 
 NOT_YET = "check not built yet in this round (work in progress; see DESIGN.md section 4 for the plan)"
